@@ -301,6 +301,22 @@ CLAIMS = {
          'directives are never unpacked on the agent) is excluded by region and '
          'printed as KNOWN-FINDING.  Bounds: <= 2 directives per task, 2 tasks per bulk.',
     design='4/C11'),
+ 'C05': dict(
+    text='PARTIAL (safety half): local lemmas decided by bounded symbolic execution of '
+         'the real code at each hand-over point of the task pipeline: '
+         'BaseComponent.work_cb (a raising work routine fails exactly the things of '
+         'that bulk with the exception recorded, the component survives, canceled '
+         'things stay CANCELED), Popen._check_running and Master._result_cb (DONE iff '
+         'exit code 0, else FAILED with code and exception), AgentComponent.advance '
+         '(agent-side FAILED/CANCELED handed to the client in full, once, not pushed), '
+         'agent/tmgr output staging (final state == target state, FAILED if staging '
+         'raised), TaskManager._update_tasks/Task._update (the published final state is '
+         'what the application sees), CANCELED only after a cancel request (C04/C07).',
+    note='The liveness half ("every task reaches exactly one final state as long as '
+         'its pilot is alive") over ten OS processes and arbitrary ZMQ delivery orders '
+         'cannot be encoded and is NOT claimed; the lemmas compose under the base-class '
+         'contract that one component owns a task between advance() calls.',
+    design='4/C05, 5'),
 }
 
 NOT_YET = 'check not built yet in this session (see DESIGN.md section 4 for the plan)'
